@@ -150,6 +150,9 @@ func solveAll(dir string, results []*FuncResult, timeoutS int, par int) {
 	idx := 0
 	for _, r := range results {
 		for _, o := range r.Obls {
+			if o.Kind == "structural" {
+				continue
+			}
 			idx++
 			jobs = append(jobs, job{o, r.Prelude, r.Body, idx})
 		}
@@ -176,8 +179,8 @@ func solveAll(dir string, results []*FuncResult, timeoutS int, par int) {
 				}
 			}
 			to := timeoutS
-			if j.o.ExpectSat && to > 8 {
-				to = 8
+			if j.o.ExpectSat && to > 4 {
+				to = 4
 			}
 			v, s, out, t := race(file, to, j.o.Concrete)
 			j.o.Verdict, j.o.Solver, j.o.Time = v, s, t
